@@ -166,3 +166,18 @@ M.contract(P + ':ok_join_args', params=dict(cmd=Str, args=ListOf(Str)), returns=
                     'starts-with-the-command': lambda cmd, result: result.startswith(cmd),
                     'same-expression-same-value': lambda cmd, args, result: result == ' '.join([cmd] + list(args))},
            raises_only=())
+
+
+def ok_copy_append(xs, x):
+    """list(xs) is a new list: appending to it leaves xs alone (stdin parts + act stdin)"""
+    ys = list(xs)
+    before = tuple(ys)
+    ys.append(x)
+    return ys, before
+
+
+M.contract(P + ':ok_copy_append', params=dict(xs=ListOf(Int), x=Int), ghosts=dict(j=Int),
+           ensures={'appended-last': lambda xs, x, result: len(result[0]) == len(xs) + 1 and result[0][len(xs)] == x,
+                    'prefix-kept': lambda xs, result, j: (not (0 <= j < len(xs))) or result[0][j] == xs[j],
+                    'snapshot-unchanged': lambda xs, result: len(result[1]) == len(xs)},
+           raises_only=())
